@@ -100,6 +100,23 @@ var idTables = [][2][]string{
 	{{"x", "X", "z"}, {"Z", "r"}},
 	{{"style", "region", "br"}, {"span", "p"}},
 	{{"_1", "_2", strings.Repeat("L", 300)}, {"_", "__"}},
+	// identifiers as the SSA reader returns them (blanks inside): not NCNames, so only the WRITE direction is judged
+	// ("writing any cue list"): what is written must come back with the same references, whatever the spelling
+	{{"Main Dialogue", "Main  Top", "alt 2"}, {"Top Left", "r 1"}},
+}
+
+func blankIDs(d ttml.Doc) bool {
+	for _, st := range d.Styles {
+		if strings.ContainsAny(st.ID, " \t") {
+			return true
+		}
+	}
+	for _, rg := range d.Regions {
+		if strings.ContainsAny(rg.ID, " \t") {
+			return true
+		}
+	}
+	return false
 }
 
 // every attribute alone, then a value that needs escaping, then two combinations
@@ -1321,6 +1338,9 @@ func sortedKeys(m map[string][]ttml.Diff) []string {
 
 // CheckRead: ReadFromTTML(render(model)) must denote the model.
 func CheckRead(cs Case) (fs []Finding, outcome uint64) {
+	if blankIDs(cs.Doc) {
+		return nil, core.Hash64("identifiers with blanks: write direction only")
+	}
 	b := cs.Doc.Bytes(cs.Render)
 	want := cs.Doc.Denote()
 	// harness self-check: the independent decoder must read the rendering back as the model
@@ -1601,9 +1621,9 @@ func replay(sub string, raw json.RawMessage) (string, bool) {
 func init() {
 	core.Register(&core.Prop{
 		ID: "C03", Level: "exploration",
-		Rule: "a case = (ground-truth TTML model, rendering choices) chosen by the E1 explorer. Model: title, copyright, xml:lang, frameRate, tickRate, styles with parent links over every forest on <=3 nodes, regions with optional style reference, xml:id values from 7 id schemes, cues (<p begin end>) with style/region references and inline tts:* attributes (24 attributes, 3-9 well-formed values each), lines of runs with style references and inline attributes. Rendering: each boundary in every TTML time-expression syntax that expresses the instant exactly (hh:mm:ss, .f/.ff/.fff, hh:mm:ss:ff, h, m, s, ms with up to nine fraction digits, f, t, fractional f and t counts) and in every lexical variant of it (extra leading zero in hours / count / frames field, superfluous fraction digits, nine-digit fraction), <br/> between spans / inside the preceding or following span / shared span / first / last / doubled, bare character data vs <span>, indentation and layout, 4 namespace prefix variants, 4 <br/> forms, 6 escaping forms (entities, decimal / hexadecimal references, CDATA whole / first character / split at ]]>), XML declaration forms and byte order mark, attribute order, comments, attributes and elements without denotation (xml:space, ttm:role, ttp:timeBase, ttm:desc), empty metadata / styling / layout containers. Enumeration: exhaustive time sweep, core products (lines, references, attributes, attribute values x carrier, time lexical forms, metadata x language tags, texts x escaping, document syntax, id schemes x references, bulk documents up to 1000 cues) and every case within B deviations of the baseline over all choice points. Read: ReadFromTTML(render(model)) must denote the model (instants exact; frames/ticks floor or nearest ns; tts:zIndex as an integer; language tags case-insensitively). Write: WriteToTTML(model) with each indent option must denote the model to the library reader and to an independent encoding/xml token-walk decoder. Non-trivial = non-baseline case, distinct by (model, rendering)",
+		Rule: "a case = (ground-truth TTML model, rendering choices) chosen by the E1 explorer. Model: title, copyright, xml:lang, frameRate, tickRate, styles with parent links over every forest on <=3 nodes, regions with optional style reference, xml:id values from 8 id schemes (the eighth, with blanks inside as the SSA reader returns them, in the write direction only), cues (<p begin end>) with style/region references and inline tts:* attributes (24 attributes, 3-9 well-formed values each), lines of runs with style references and inline attributes. Rendering: each boundary in every TTML time-expression syntax that expresses the instant exactly (hh:mm:ss, .f/.ff/.fff, hh:mm:ss:ff, h, m, s, ms with up to nine fraction digits, f, t, fractional f and t counts) and in every lexical variant of it (extra leading zero in hours / count / frames field, superfluous fraction digits, nine-digit fraction), <br/> between spans / inside the preceding or following span / shared span / first / last / doubled, bare character data vs <span>, indentation and layout, 4 namespace prefix variants, 4 <br/> forms, 6 escaping forms (entities, decimal / hexadecimal references, CDATA whole / first character / split at ]]>), XML declaration forms and byte order mark, attribute order, comments, attributes and elements without denotation (xml:space, ttm:role, ttp:timeBase, ttm:desc), empty metadata / styling / layout containers. Enumeration: exhaustive time sweep, core products (lines, references, attributes, attribute values x carrier, time lexical forms, metadata x language tags, texts x escaping, document syntax, id schemes x references, bulk documents up to 1000 cues) and every case within B deviations of the baseline over all choice points. Read: ReadFromTTML(render(model)) must denote the model (instants exact; frames/ticks floor or nearest ns; tts:zIndex as an integer; language tags case-insensitively). Write: WriteToTTML(model) with each indent option must denote the model to the library reader and to an independent encoding/xml token-walk decoder. Non-trivial = non-baseline case, distinct by (model, rendering)",
 		Scope: map[core.Tier]string{
-			core.Quick:    "time sweep (every ms of [0,3 s), every frame and tick count in [0,1000) + tables up to 1000 h, 15 (frameRate, tickRate) pairs incl. 50/60/120/1000 fps, all exact syntaxes) + lines core (11 line shapes x 2 texts x plain/attr x bare/span x br placement x 2 indents x layout x 2 br forms x 2 prefix variants) + refs core (21 forests x <=2 regions x all style/region references) + attrs core (8 attribute subsets on style, region, p, span x 3 namespace variants) + values core (24 attributes x all 126 values x 4 carriers x 3 prefix variants x quote x attribute order) + lex core (12 rate pairs x 26-60 boundary instants incl. sub-millisecond, 100/1000 frames, ticks past 2^53/10^9, fractional counts x every exact syntax x 2-4 lexical variants x begin/end) + meta core (8 titles x 4 copyrights x 24 language tags x 4 escaping forms x empty-element form) + text core (33 texts x 6 escaping forms x xml:space absent/preserve/default x 3 layouts x bare/span) + syntax core (declaration/BOM x 4 prefix variants x attribute order x comments x decoys x 4 br forms x empty containers x quote x indent x bare) + ids core (7 id schemes x 4 forests x all references) + bulk core (13/100/257/1000 cues x 20 styles x 12 regions) + deviation ball B=2 (<=2 cues; 24 attributes with a value choice below each, 33 texts, 24 language tags, 7 frame rates, 5 tick rates, 29-40 instants, all rendering freedoms)",
+			core.Quick:    "time sweep (every ms of [0,3 s), every frame and tick count in [0,1000) + tables up to 1000 h, 15 (frameRate, tickRate) pairs incl. 50/60/120/1000 fps, all exact syntaxes) + lines core (11 line shapes x 2 texts x plain/attr x bare/span x br placement x 2 indents x layout x 2 br forms x 2 prefix variants) + refs core (21 forests x <=2 regions x all style/region references) + attrs core (8 attribute subsets on style, region, p, span x 3 namespace variants) + values core (24 attributes x all 126 values x 4 carriers x 3 prefix variants x quote x attribute order) + lex core (12 rate pairs x 26-60 boundary instants incl. sub-millisecond, 100/1000 frames, ticks past 2^53/10^9, fractional counts x every exact syntax x 2-4 lexical variants x begin/end) + meta core (8 titles x 4 copyrights x 24 language tags x 4 escaping forms x empty-element form) + text core (33 texts x 6 escaping forms x xml:space absent/preserve/default x 3 layouts x bare/span) + syntax core (declaration/BOM x 4 prefix variants x attribute order x comments x decoys x 4 br forms x empty containers x quote x indent x bare) + ids core (8 id schemes x 4 forests x all references) + bulk core (13/100/257/1000 cues x 20 styles x 12 regions) + deviation ball B=2 (<=2 cues; 24 attributes with a value choice below each, 33 texts, 24 language tags, 7 frame rates, 5 tick rates, 29-40 instants, all rendering freedoms)",
 			core.Thorough: "time sweep over [0,20 s) and frame/tick counts [0,10000) + larger cores (4 indents, 3 br forms, 4 write indents) + deviation ball B=3 (<=3 cues)",
 		},
 		Assumptions: []string{"Go toolchain and standard library (encoding/xml is used generically by the independent decoder)", "independent reference codec engine/ref/ttml",
